@@ -476,3 +476,9 @@ func ZzC03ImportedPlainL3() { zzC03b(KeyScopeBIP0084, 3, 7, true, nil) }
 func ZzC03ImportedTaprootL2() {
 	zzC03b(KeyScopeBIP0044, 2, 7, true, &ScopeAddrSchema{ExternalAddrType: TaprootPubKey, InternalAddrType: WitnessPubKey})
 }
+
+// the override p2pkh/p2pkh is the zero value of ScopeAddrSchema, yet a valid
+// override in a scope whose default is something else
+func ZzC03ImportedLegacyL2() {
+	zzC03b(KeyScopeBIP0084, 2, 7, true, &ScopeAddrSchema{ExternalAddrType: PubKeyHash, InternalAddrType: PubKeyHash})
+}
